@@ -1,4 +1,4 @@
-import RsslVerif.Model.Overload
+import RsslVerif.Model.OverloadT
 /-!
 # What C16 means (reference notions, independent of how `find_function_type` computes)
 
@@ -105,5 +105,31 @@ def SameLayers : List Param → List ETy → Prop
 
 /-- "a candidate whose parameter types equal the argument types exactly" (and which can be called at all) -/
 def TypeExact (args : List ETy) (c : Cand) : Prop := (∃ rs, Viable args c rs) ∧ SameLayers c.params args
+
+/-! ## the same notions for candidates of any kind (`GCand`: ordinary functions, function templates with their
+deduction step as an arbitrary function of the argument types, methods, intrinsics) -/
+
+/-- the candidate is viable for the call and these are the ranks of its argument conversions -/
+def ViableG (args : List ETy) (g : GCand) (rs : List Rank) : Prop := rankG args g = .ranked g.id rs
+
+/-- the candidate is viable and matches the arguments exactly -/
+def ExactMatchG (args : List ETy) (g : GCand) : Prop := ∃ rs, ViableG args g rs ∧ RankExact rs
+
+/-- no candidate reaches a panic site (template instantiation or `get_rank`) -/
+def NoPanicG (cands : List GCand) (args : List ETy) : Prop := ∀ g ∈ cands, (rankG args g).isPanic = false
+
+/-- the layer is not (built from) an untyped literal -/
+def NonLiteral : Layer → Prop
+  | .scalar s => s ≠ .intLiteral ∧ s ≠ .floatLiteral
+  | .vector s _ => s ≠ .intLiteral ∧ s ≠ .floatLiteral
+  | .matrix s _ _ => s ≠ .intLiteral ∧ s ≠ .floatLiteral
+  | _ => True
+
+/-- every parameter is a concrete type or a bare type template parameter `T` -/
+def SimpleTemplate (c : TCand) : Prop :=
+  ∀ p ∈ c.params, match p.pat with
+    | .conc _ => True
+    | .tvar k => c.tkinds[k]? = some TKind.type
+    | _ => False
 
 end RsslVerif.Spec.Overload
